@@ -46,9 +46,9 @@ fn gen_keys(rng: &mut Rng) -> KeyCfg {
     let k2 = signing_key_from_seed(rng);
     let k3 = signing_key_from_seed(rng);
     // key ids carry no order: any of the three may be the smallest / largest
-    let mut ids = [1 + rng.below(1000), 2000 + rng.below(1000), 5000 + rng.below(1000)];
+    let mut ids = [1 + rng.below(1000), 2000 + rng.below(1000), 5000 + rng.below(1000), 8000 + rng.below(1000)];
     rng.shuffle(&mut ids);
-    let (id1, id2, id3) = (ids[0], ids[1], ids[2]);
+    let (id1, id2, id3, id4) = (ids[0], ids[1], ids[2], ids[3]);
     let pk = |id: u64, k: &p256::ecdsa::SigningKey| PublicKeyAndId { id, key: VerifyingKey::from(k) };
     let sk = |id: u64, k: &p256::ecdsa::SigningKey| PrivateKeyAndId { id, key: k.clone() };
     match rng.below(4) {
@@ -56,7 +56,15 @@ fn gen_keys(rng: &mut Rng) -> KeyCfg {
         1 => KeyCfg {
             // the client still uses a key that is historical on the server
             client: PublicKeys { latest: pk(id1, &k1), historical: vec![] },
-            server: PrivateKeys { latest: sk(id2, &k2), historical: vec![sk(id3, &k3), sk(id1, &k1)] },
+            // ... anywhere in a list that is in no particular order (rotation history is configuration, not sorted data)
+            server: PrivateKeys {
+                latest: sk(id2, &k2),
+                historical: {
+                    let mut h = vec![sk(id3, &k3), sk(id1, &k1), sk(id4, &k3)];
+                    rng.shuffle(&mut h);
+                    h
+                },
+            },
             server_has_client_latest: true,
             label: "client-latest-is-server-historical",
         },
